@@ -111,6 +111,12 @@ def run (kv : List (String × String)) : IO Res := do
         let k := ((a.zip b).takeWhile (fun (x, y) => x == y)).length
         return .propfail s!"with an unattachable blamed thread on a reused writer a stream differs from a fresh writer's dump: `{(b[k]?).getD "(missing)"}` vs `{(a[k]?).getD "(missing)"}`" tags
       tags := "reused.intact" :: tags
+  | "alltraced" =>
+    let n := (tree.filter (· == "SuspendThreadsErrors/PtraceAttachError/EPERM")).length
+    if n != nthreads then
+      return .propfail s!"every one of the {nthreads} threads is traced by another process, but {n} attach failures are listed (list: {tree})" tags
+    if !tree.any (·.startsWith "SuspendNoThreadsLeft") then
+      return .propfail s!"no thread was left after the attach step, and that failure is not listed (list: {tree})" tags
   | "traced" =>
     if !tree.contains "SuspendThreadsErrors/PtraceAttachError/EPERM" then
       return .propfail "a thread that could not be attached was not reported" tags
